@@ -114,7 +114,10 @@ func saveCase(property, name string, v any) string {
 	}
 	_ = os.MkdirAll(dir, 0o755)
 	p := filepath.Join(dir, fmt.Sprintf("%s-%s-%d.json", property, name, os.Getpid()))
-	data, _ := json.MarshalIndent(v, "", " ")
+	data, err := json.MarshalIndent(v, "", " ")
+	if err != nil { // e.g. NaN option values: keep a readable record
+		data, _ = json.MarshalIndent(map[string]any{"unserializable": fmt.Sprintf("%+v", v), "error": err.Error()}, "", " ")
+	}
 	_ = os.WriteFile(p, data, 0o644)
 	return p
 }
